@@ -160,8 +160,11 @@ func main() {
 		id := os.Args[2]
 		tier := os.Getenv("VERIF_TIER")
 		repo := "/repo"
+		evidence := true
 		for i := 3; i < len(os.Args); i++ {
 			switch os.Args[i] {
+			case "--no-evidence":
+				evidence = false
 			case "--tier":
 				i++
 				tier = os.Args[i]
@@ -173,7 +176,7 @@ func main() {
 		if tier != "thorough" {
 			tier = "quick"
 		}
-		os.Exit(check(id, tier, repo, true))
+		os.Exit(check(id, tier, repo, evidence))
 	case "replay":
 		if len(os.Args) < 4 {
 			fatal2("replay needs a property id and a file")
@@ -677,6 +680,12 @@ func check(id, tier, repo string, writeEvidence bool) int {
 			}
 			fmt.Fprintln(os.Stderr, "simcheck: infrastructure trouble:", s)
 		}
+		if newViol > 0 && onlyNondeterminism(m.infra) {
+			// violations that reproduce from their replay files in fresh
+			// processes stand even if the tree under test no longer executes
+			// deterministically (which is then part of what is wrong with it)
+			return 1
+		}
 		return 2
 	}
 	if m.runs < total && os.Getenv("SIM_BUDGET_S") == "" {
@@ -687,6 +696,15 @@ func check(id, tier, repo string, writeEvidence bool) int {
 		exit = 1
 	}
 	return exit
+}
+
+func onlyNondeterminism(infra []string) bool {
+	for _, s := range infra {
+		if !strings.Contains(s, "nondeterminism") && !strings.Contains(s, "did not reproduce") {
+			return false
+		}
+	}
+	return true
 }
 
 func sumMap(m map[string]int64) int64 {
@@ -739,7 +757,10 @@ func (r *runner) confirm(bin string, v *engine.ViolationReport) (bool, string) {
 		return false, fmt.Sprintf("classes on replay: %v", res.Replayed.Classes)
 	}
 	if res.Replayed.Fingerprint != v.Fingerprint {
-		return false, fmt.Sprintf("fingerprint %s on replay, %s when found", res.Replayed.Fingerprint, v.Fingerprint)
+		// the same violation class reproduced in a fresh process but the run as a
+		// whole did not repeat byte for byte: the code under test has become
+		// nondeterministic (e.g. a sync.Pool). The violation stands; say so.
+		fmt.Fprintf(os.Stderr, "simcheck: note: %s reproduces class %s but with fingerprint %s (was %s): the tree under test does not execute deterministically\n", v.Replay, v.Class, res.Replayed.Fingerprint, v.Fingerprint)
 	}
 	return true, ""
 }
